@@ -23,6 +23,10 @@ package sample
 //@ extern func slices.SortFunc
 //@   modifies x[all]
 //@   ensures forall k int :: 0 <= k && k < len(x) ==> exists j int :: 0 <= j && j < len(x) && x[k] == old(x[j])
+// ... and it sorts by the comparator. The only SortFunc call of the package is topK's, whose comparator topK$1 is
+// verified to order by DESCENDING value; it is a strict weak order when no value is NaN (feq is reflexive
+// exactly on non-NaN values)
+//@   ensures (forall j int :: 0 <= j && j < len(x) ==> old(x[j].value) == old(x[j].value)) ==> forall i int, j int :: 0 <= i && i < j && j < len(x) ==> !(x[i].value < x[j].value)
 // binary search returns an insertion position 0..len (the comparison closure sample$1 writes nothing)
 //@ extern func slices.BinarySearchFunc
 //@   modifies nothing
@@ -81,11 +85,39 @@ package sample
 // copy is stated observationally: both compare alike against every x
 //@   loop 1 invariant forall k int :: 0 <= k && k <= rangeindex ==> forall x float32 :: ((tokens[k].value < x) <==> (logits[k] < x)) && ((x < tokens[k].value) <==> (x < logits[k]))
 //@   loop 2 invariant forall k int :: 0 <= k && k <= rangeindex ==> tokens[k].id == k
+// the id returned is the id of the token sample chose (the one whose membership in the filter sets sample's
+// contract is about): the first draw without a grammar or when the grammar accepts it, the second draw otherwise
+//@   ghost-at entry : ghost_t1 := -1
+//@   ghost-at entry : ghost_t2 := -1
+//@   ghost-at entry : ghost_inf := -1
+//@   ghost-at after call (*Sampler).sample #1 : ghost_t1 := result.0.id
+//@   ghost-at after call (*Sampler).sample #2 : ghost_t2 := result.0.id
+//@   ghost-at after call math.IsInf : ghost_inf := ite(result, 1, 0)
+//@   assert-at call math.IsInf #1 : arg1 == -1
+// (return sites are numbered in the engine's block order: #4 is `return top[0].id, nil`, #3 the second `return -1, err`)
+//@   assert-at return #4 : ghost_inf == 0 && result.0 == ghost_t1
+//@   assert-at return #5 : (s.grammar == nil ==> result.0 == ghost_t1) && (s.grammar != nil ==> result.0 == ghost_t2)
+// every draw is over the whole vocabulary; before the second draw (the grammar rejected the first token, its
+// masked logit is -Inf) the list that the first draw sorted / overwrote is rebuilt from the logits, then masked
+//@   assert-at call (*Sampler).sample #1 : len(arg1) == len(logits)
+//@   loop 2 invariant forall k int :: 0 <= k && k <= rangeindex ==> forall x float32 :: ((tokens[k].value < x) <==> (logits[k] < x)) && ((x < tokens[k].value) <==> (x < logits[k]))
+//@   assert-at call (*Grammar).Apply #2 : ghost_inf == 1 && len(arg1) == len(logits) && forall k int :: 0 <= k && k < len(logits) ==> arg1[k].id == k && forall x float32 :: ((arg1[k].value < x) <==> (logits[k] < x)) && ((x < arg1[k].value) <==> (x < logits[k]))
+//@   ghost-at entry : ghost_applied := 0
+//@   ghost-at after call (*Grammar).Apply #2 : ghost_applied := 1
+//@   assert-at call (*Sampler).sample #2 : len(arg1) == len(logits) && ghost_applied == 1
+// sampling does not change the sampler: the next call uses the same parameters and the same generator
+//@   ensures s.rng == old(s.rng) && s.topK == old(s.topK) && s.grammar == old(s.grammar) && fsame(s.temperature, old(s.temperature)) && fsame(s.topP, old(s.topP)) && fsame(s.minP, old(s.minP))
 
 //@ func (*Grammar).Apply
 //@   modifies tokens[all]
 //@   ensures forall k int :: 0 <= k && k < len(tokens) ==> tokens[k].id == old(tokens[k].id)
 //@   loop 2 invariant forall k int :: 0 <= k && k < len(tokens) ==> tokens[k].id == old(tokens[k].id)
+// the grammar judges the tokens it is given: candidate k goes to llama.cpp with its own id and logit, and the
+// masked logit that comes back for candidate k is stored in token k (Sample's -Inf test reads it)
+//@   loop 1 invariant forall k int :: 0 <= k && k <= rangeindex ==> tds[k].Id == tokens[k].id && fsame(tds[k].Logit, tokens[k].value)
+//@   assert-at call (*Sampler).Apply #1 : len(arg1) == len(tokens) && forall k int :: 0 <= k && k < len(tokens) ==> arg1[k].Id == tokens[k].id && fsame(arg1[k].Logit, tokens[k].value)
+//@   loop 2 invariant forall k int :: 0 <= k && k <= rangeindex ==> fsame(tokens[k].value, tds[k].Logit)
+//@   assert-at return #1 : forall k int :: 0 <= k && k < len(tokens) ==> fsame(tokens[k].value, tds[k].Logit)
 
 //@ func (*Sampler).sample
 //@   requires len(tokens) >= 1
@@ -109,6 +141,39 @@ package sample
 //@   ghost-at after call topK : ghost_sorted := 1
 //@   assert-at call topP : ghost_sorted == 1
 //@   assert-at call minP : ghost_sorted == 1
+// the pipeline runs in the order the filters are defined in: top-k (sort), temperature, softmax (logits become
+// probabilities: top-p and min-p are thresholds on probabilities), top-p, min-p, then the draw over what min-p left.
+// Each step runs exactly once, on the list the previous step produced (lengths recorded from the call results),
+// with the sampler's own parameter
+//@   ghost-at entry : ghost_stage := 0
+//@   ghost-at after call topK : ghost_stage := ite(ghost_stage == 0, 1, -1)
+//@   ghost-at after call topK : ghost_nk := len(result)
+//@   assert-at call topK #1 : ghost_stage == 0 && arg0 == tokens && arg1 == s.topK
+// (the order and the lengths seen at temperature / softmax are recorded there and checked at the topP call, after
+// the older sort-before-filter assertion, so that a skipped topK is still reported under that assertion's name)
+//@   ghost-at call temperature : ghost_lt := len(arg0)
+//@   assert-at call temperature #1 : fsame(arg1, s.temperature)
+//@   ghost-at after call temperature : ghost_stage := ite(ghost_stage == 1, 2, -1)
+//@   assert-at call softmax #1 : len(arg0) == ghost_lt
+//@   ghost-at after call softmax : ghost_stage := ite(ghost_stage == 2, 3, -1)
+//@   assert-at call topP #1 : ghost_stage == 3 && ghost_lt == ghost_nk && len(arg0) == ghost_nk && fsame(arg1, s.topP)
+//@   ghost-at after call topP : ghost_stage := 4
+//@   ghost-at after call topP : ghost_np := len(result)
+//@   assert-at call minP #1 : ghost_stage == 4 && len(arg0) == ghost_np && fsame(arg1, s.minP)
+//@   ghost-at after call minP : ghost_stage := 5
+//@   ghost-at after call minP : ghost_nm := len(result)
+// the cumulative sums are built over exactly the tokens min-p left, each cell receives the running sum
+//@   loop 1 invariant ghost_stage == 5 && len(tokens) == ghost_nm
+//@   loop 1 invariant rangeindex >= 0 ==> fsame(tokens[rangeindex].value, sum)
+// the search runs over that same list and the token returned is the one at the position it found; the NaN guard
+// decides between the error and the token (no token is returned for a NaN total)
+//@   assert-at call BinarySearchFunc #1 : ghost_stage == 5 && len(arg0) == ghost_nm && arg0 == tokens
+//@   ghost-at after call BinarySearchFunc : ghost_idx := result.0
+//@   ghost-at after call math.IsNaN : ghost_nan := ite(result, 1, 0)
+//@   assert-at return #2 : ghost_nan == 1
+//@   assert-at return #3 : ghost_nan == 0 && len(tokens) == ghost_nm && 0 <= ghost_idx && (ghost_idx < ghost_nm ==> result.0 == tokens[ghost_idx]) && result.1 == nil
+// reproducibility: no draw from the process-wide generator, at any site, when the sampler is seeded
+//@   assert-at call v2.Float32 : s.rng == nil
 
 //@ func topK
 //@   requires len(ts) >= 1
@@ -126,6 +191,30 @@ package sample
 //@   assume-at after call heap.Push : len(h) == ghost_hl + 1
 //@   loop 1 invariant k <= i && len(h) == k && 1 <= k && k < len(ts)
 //@   loop 2 invariant -1 <= i && i < k && len(h) == i + 1 && len(result) == k && 1 <= k && k < len(ts)
+// the top-k set: top-k disabled (k <= 0) or not smaller than the list: the whole list, sorted in place;
+// otherwise exactly k tokens survive (in a fresh slice)
+//@   ensures k <= 0 || k >= len(ts) ==> result == ts
+//@   ensures 0 < k && k < len(ts) ==> len(result) == k && fresh(result)
+// the sort branch leaves the list in DESCENDING order of value (what top-p's cumulative cut and min-p's
+// "ts[0] is the maximum" rely on), provided no value is NaN (with NaN the comparator is not a strict weak
+// order and the library promises nothing). Rests on the trusted contract of slices.SortFunc below and on
+// the verified contract of the comparator topK$1
+//@   ensures (k <= 0 || k >= len(ts)) && (forall j int :: 0 <= j && j < len(ts) ==> old(ts[j].value) == old(ts[j].value)) ==> forall i int, j int :: 0 <= i && i < j && j < len(result) ==> !(result[i].value < result[j].value)
+// the heap keeps the k LARGEST values seen: h[0] is the smallest kept value (min-heap, (tokenHeap).Less) and
+// it is evicted only for a strictly larger one
+//@   assert-at call heap.Pop #1 : ts[i].value > h[0].value
+
+// comparator of the sort: descending by value (1 = a after b)
+//@ func topK$1
+//@   ensures a.value < b.value ==> result == 1
+//@   ensures !(a.value < b.value) && a.value > b.value ==> result == -1
+//@   ensures !(a.value < b.value) && !(a.value > b.value) ==> result == 0
+
+// comparator of the binary search over the cumulative sums: -1 (keep right) exactly for sums below the target,
+// so the position found is the first token whose cumulative sum reaches the target
+//@ func (*Sampler).sample$1
+//@   ensures token.value < target ==> result == -1
+//@   ensures !(token.value < target) ==> result == 1
 
 //@ func temperature
 //@   modifies ts[all]
@@ -137,6 +226,11 @@ package sample
 //@   ensures forall k int :: 0 <= k && k < len(ts) ==> ts[k].id == old(ts[k].id)
 //@   loop 2 invariant forall k int :: 0 <= k && k < len(ts) ==> ts[k].id == old(ts[k].id)
 //@   loop 3 invariant forall k int :: 0 <= k && k < len(ts) ==> ts[k].id == old(ts[k].id)
+// "huge magnitudes": exp is taken of value - maxLogit, which must not be positive for any token (else exp
+// overflows to +Inf and Inf/Inf = NaN makes every draw fail): when the exponentials are computed, maxLogit is
+// not exceeded by any value still to be processed (the subtraction itself cannot be written in a contract)
+//@   loop 1 invariant forall k int :: 0 <= k && k <= rangeindex ==> !(ts[k].value > maxLogit)
+//@   loop 2 invariant forall k int :: rangeindex < k && k < len(ts) ==> !(ts[k].value > maxLogit)
 
 // topP / minP return a prefix of their argument (same backing array)
 //@ func topP
@@ -144,6 +238,14 @@ package sample
 //@   modifies nothing
 //@   ensures 1 <= len(result) && len(result) <= len(ts)
 //@   ensures forall k int :: 0 <= k && k < len(result) ==> &result[k] == &ts[k]
+// the top-p set: the SHORTEST prefix whose cumulative probability exceeds p (everything when p == 1 or no
+// prefix exceeds p). `sum` is the running cumulative sum (float addition cannot be written in a contract):
+// at every loop head the prefix seen so far has NOT exceeded p, the cut happens right after the element
+// that makes it exceed p, and that element is kept
+//@   ensures p == 1.0 ==> len(result) == len(ts)
+//@   loop 1 invariant rangeindex >= 0 ==> !(sum > p)
+//@   assert-at return #2 : sum > p && len(result) == i + 1
+//@   assert-at return #3 : len(result) == len(ts) && (len(ts) >= 1 ==> !(sum > p))
 
 // minP keeps ts[0] only if its threshold ts[0].value*p is not above ts[0].value: p must not exceed 1
 // (the caller's obligation; with p > 1 the result is empty and sample's tokens[len(tokens)-1] faults)
@@ -153,6 +255,13 @@ package sample
 //@   modifies nothing
 //@   ensures len(result) <= len(ts)
 //@   ensures forall k int :: 0 <= k && k < len(result) ==> &result[k] == &ts[k]
+// the min-p set: the longest prefix none of whose tokens is below the threshold (threshold = ts[0].value * p;
+// the product cannot be written in a contract, so the clauses name the local): the maximum is taken from
+// ts[0] (the list is sorted descending), every kept token is not below the threshold, the first token cut is
+//@   loop 1 invariant forall k int :: 0 <= k && k <= rangeindex ==> !(ts[k].value < threshold)
+//@   assert-at return #1 : fsame(maxProb, ts[0].value) && len(result) == i && ts[i].value < threshold && forall k int :: 0 <= k && k < len(result) ==> !(ts[k].value < threshold)
+//@   assert-at return #2 : fsame(maxProb, ts[0].value) && len(result) == len(ts) && forall k int :: 0 <= k && k < len(ts) ==> !(ts[k].value < threshold)
+//@   ensures exists th float32 :: (forall k int :: 0 <= k && k < len(result) ==> !(ts[k].value < th)) && (len(result) < len(ts) ==> ts[len(result)].value < th)
 
 //@ func NewSampler
 //@   ensures seed != -1 ==> result.rng != nil
@@ -176,17 +285,30 @@ package sample
 //@   ensures temperature < 0.0 ==> fsame(result.temperature, 0.0)
 // temperature zero selects the greedy path of sample (which tests s.temperature == 0)
 //@   ensures temperature == 0.0 ==> result.temperature == 0.0
+// "with a fixed seed the sequence is reproducible": the generator's state is a function of the seed alone
+// (sequence = uint64(seed), two's complement for negative seeds; stream derived from it)
+//@   assert-at call NewPCG #1 : arg0 == ite(seed >= 0, seed, seed + 18446744073709551616)
 
 // heap.Interface methods: container/heap calls them with indices inside the heap
 //@ func (tokenHeap).Len
 //@   ensures result == len(h)
 //@ func (tokenHeap).Less
 //@   requires 0 <= i && i < len(h) && 0 <= j && j < len(h)
+// a MIN-heap on value: container/heap keeps a Less-minimal element at index 0, so topK's h[0] is the smallest
+// of the k kept values (a max-heap would keep the k smallest tokens)
+//@   ensures result <==> h[i].value < h[j].value
 //@ func (tokenHeap).Swap
 //@   requires 0 <= i && i < len(h) && 0 <= j && j < len(h)
+// exchanges the two tokens (id and value together) and nothing else
+//@   ensures h[i] == old(h[j]) && h[j] == old(h[i])
+//@   ensures forall k int :: 0 <= k && k < len(h) && k != i && k != j ==> h[k] == old(h[k])
 //@ func (*tokenHeap).Push
 //@   requires tagis(x, "token")
 //@   ensures len(*h) == old(len(*h)) + 1
+// appends: the tokens already in the heap stay where they are
+//@   ensures forall k int :: 0 <= k && k < old(len(*h)) ==> (*h)[k] == old((*h)[k])
 //@ func (*tokenHeap).Pop
 //@   requires len(*h) >= 1
 //@   ensures len(*h) == old(len(*h)) - 1 && tagis(result, "token")
+// removes the LAST token (container/heap has moved the minimum there); the others stay
+//@   ensures forall k int :: 0 <= k && k < len(*h) ==> (*h)[k] == old((*h)[k])
